@@ -1,6 +1,7 @@
 package main
 
 import (
+	"go/ast"
 	"go/token"
 	"go/types"
 	"strings"
@@ -73,6 +74,116 @@ func (fr *Frame) nativeModel(name string, callee *ssa.Function, c *ssa.CallCommo
 			eq(r, ite(lt(d, ml), ite(lt(ai(d), bi(d)), "(- 1)", "1"), ite(lt(a.Len, b.Len), "(- 1)", ite(lt(b.Len, a.Len), "1", "0"))))))
 		vc.note("library model: bytes.Compare is lexicographic byte order")
 		return Scalar{r, "Int"}, true
+	case "sort.Slice", "sort.SliceStable":
+		mi, ok1 := c.Args[0].(*ssa.MakeInterface)
+		mc, ok2 := c.Args[1].(*ssa.MakeClosure)
+		if !ok1 || !ok2 {
+			return nil, false
+		}
+		sl, ok := fr.val(mi.X).(*SliceV)
+		slt, ok3 := under(mi.X.Type()).(*types.Slice)
+		if !ok || !ok3 {
+			return nil, false
+		}
+		et := slt.Elem()
+		ls := leaves(et)
+		if len(ls) != 1 {
+			return nil, false
+		}
+		fl, ok := mc.Fn.(*ssa.Function).Syntax().(*ast.FuncLit)
+		if !ok || len(fl.Type.Params.List) == 0 {
+			return nil, false
+		}
+		var pn []string
+		for _, f := range fl.Type.Params.List {
+			for _, nm := range f.Names {
+				pn = append(pn, nm.Name)
+			}
+		}
+		if len(pn) != 2 {
+			return nil, false
+		}
+		// the elements of the slice are permuted (frame: the backing array is written)
+		fr.frameCheck(st, Ptr{Root: "E|" + canon(et), Base: sl.Arr, Idx: "0"}, pos)
+		hn := "E|" + canon(et) + "|" + ls[0].Path
+		sort := vc.heapSortFor(hn, ls[0].Sort)
+		h := vc.heap(st, hn, sort)
+		na := vc.fresh("sorted", arraySort("Int", ls[0].Sort))
+		i := vc.freshName("q_i")
+		j := vc.freshName("q_j")
+		in := func(x string) string { return and(le(sl.Off, x), lt(x, plus(sl.Off, sl.Len))) }
+		rel := func(x string) string { return and(le("0", x), lt(x, sl.Len)) }
+		// outside the slice nothing changes; inside, new and old contents are permutations of each other
+		// (stated over relative positions, the form in which contracts speak about s[i])
+		vc.assert(forall([][2]string{{i, "Int"}}, "(! "+implies(not(in(i)), eq(sel(na, i), sel2(h, sl.Arr, i)))+" :pattern ("+sel(na, i)+"))"))
+		newAt := func(x string) string { return sel(na, plus(sl.Off, x)) }
+		oldAt := func(x string) string { return sel2(h, sl.Arr, plus(sl.Off, x)) }
+		// a bijection perm (new position -> old position) with inverse pinv; stated with functions rather than
+		// existentials so that instantiation terminates (perm and pinv cancel)
+		perm := vc.freshName("perm")
+		pinv := vc.freshName("pinv")
+		vc.emit("(declare-fun " + perm + " (Int) Int)")
+		vc.emit("(declare-fun " + pinv + " (Int) Int)")
+		vc.assert(forall([][2]string{{i, "Int"}}, "(! "+implies(rel(i), and(rel(app(perm, i)), eq(app(pinv, app(perm, i)), i), eq(newAt(i), oldAt(app(perm, i)))))+" :pattern ("+newAt(i)+") :pattern ("+app(perm, i)+"))"))
+		vc.assert(forall([][2]string{{j, "Int"}}, "(! "+implies(rel(j), and(rel(app(pinv, j)), eq(app(perm, app(pinv, j)), j), eq(newAt(app(pinv, j)), oldAt(j))))+" :pattern ("+oldAt(j)+") :pattern ("+app(pinv, j)+"))"))
+		if _, isPtr := under(et).(*types.Pointer); isPtr {
+			// a consequence of the permutation that the solver does not find by itself: no nil element before, none after
+			// (same syntactic shape as a contract's forallIn over s[i])
+			k := vc.freshName("q_i")
+			vc.assert(implies(forall([][2]string{{k, "Int"}}, implies(rel(k), not(eq(oldAt(k), "0")))),
+				forall([][2]string{{k, "Int"}}, implies(rel(k), not(eq(newAt(k), "0"))))))
+		}
+		vc.setHeap(st, hn, sort, sto(h, sl.Arr, na))
+		if vc.logStores {
+			vc.storeLog = append(vc.storeLog, storeRec{heap: hn, base: sl.Arr})
+		}
+		// sortedness: for positions a < b of the result, less(b, a) is false; the comparison closure is evaluated
+		// from its source text in the state after the permutation (captured variables read through their cells)
+		env := fr.baseEnv(st)
+		env.names = map[string]TV{}
+		okEnv := true
+		for k, fv := range mc.Fn.(*ssa.Function).FreeVars {
+			pt, isPtr := fv.Type().(*types.Pointer)
+			if !isPtr {
+				okEnv = false
+				break
+			}
+			pv, isP := fr.val(mc.Bindings[k]).(Ptr)
+			if !isP {
+				okEnv = false
+				break
+			}
+			env.names[fv.Name()] = TV{vc.load(st, pv, pt.Elem()), pt.Elem()}
+		}
+		if okEnv {
+			qa, qb := "q_"+pn[0]+"_s", "q_"+pn[1]+"_s"
+			env.names[pn[0]] = intTV(qb) // less(b, a)
+			env.names[pn[1]] = intTV(qa)
+			env.inQuant++
+			func() {
+				defer func() {
+					if r := recover(); r != nil {
+						if _, isCE := r.(contractError); !isCE {
+							panic(r)
+						}
+						vc.note("library model: sort.Slice comparison function not expressible; only the permutation property is assumed")
+					}
+				}()
+				vc.enterBinder()
+				open := true
+				defer func() {
+					if open {
+						vc.exitBinder()
+					}
+				}()
+				body := env.evalBlock(fl.Body.List).V.(Scalar).T
+				tf := vc.exitBinder()
+				open = false
+				vc.assert(forall([][2]string{{qa, "Int"}, {qb, "Int"}}, implies(and(append([]string{le("0", qa), lt(qa, qb), lt(qb, sl.Len)}, tf...)...), not(body))))
+			}()
+		}
+		vc.note("library model: sort.Slice permutes the slice so that less(b, a) is false for all positions a < b")
+		return &StructV{}, true
 	case "errors.New", "fmt.Errorf":
 		e := vc.fresh("newerr", "Int")
 		vc.assert(lt("0", e))
